@@ -247,6 +247,39 @@ Definition net_register (cb : nat) (fd op : Z) (rid : nat) (n0 : net_st) : res (
     end
   end.
 
+(* events_network_register when one of its allocations is refused (it returns -1 with ENOMEM):
+   the state the C leaves behind, by the point [stage] at which the refusal happened
+     1      in init() (socketlist_init), or in events_mkrec when the list did not have to grow:
+            nothing has been written
+     2      in growsocketlist (socketlist_resize): init() has run
+     3      in events_mkrec after growsocketlist succeeded: the list has its new empty records
+     >= 4   in growpollfd (the realloc of the pollfd array) after events_mkrec succeeded and *r
+            was set: err1 frees the record and stores NULL back into the field
+   (for a call that returns before that point - bad descriptor, bad op, EEXIST - the state
+   reached at its return) *)
+Definition net_register_refused (stage cb : nat) (fd op : Z) (rid : nat) (n0 : net_st) : net_st :=
+  if stage <=? 1 then n0 else
+  let n := net_init n0 in
+  if stage =? 2 then n else
+  if (fd <? 0)%Z then n else
+  match op_dir op with
+  | None => n
+  | Some dir =>
+    let s := Z.to_nat fd in
+    let n1 := if length (socks n) <=? s then growsocketlist (S s) n else n in
+    if stage =? 3 then n1 else
+    match nth_error (socks n1) s with
+    | None => n1
+    | Some k =>
+      match sk_get dir k with
+      | Some _ => n1                                          (* EEXIST is tested before the allocation *)
+      | None =>
+        let k2 := sk_set dir (Some {| r_cb := cb; r_rid := rid |}) k in     (* *r = events_mkrec(...) *)
+        net_with n1 (upd_nth s (sk_set dir None k2) (upd_nth s k2 (socks n1))) (fds n1)   (* err1: *r = NULL *)
+      end
+    end
+  end.
+
 (* events_network_cancel(s, op): inl r = returned 0 and r was the record freed *)
 Definition net_cancel (fd op : Z) (n0 : net_st) : res ((rec + errc) * net_st) :=
   let n := net_init n0 in
@@ -463,6 +496,13 @@ Definition timer_register (cb : nat) (t : tv) (rid : nat) (s : st) : res st :=
                      (heap (s_tmr s1)) in
   Ok (tmr_with s1 h).
 
+(* events_timer_register refused: what stays behind.  [af] >= 3: the call was the one that created
+   the timer queue (Q = timerqueue_init() had succeeded before events_mkrec / malloc /
+   timerqueue_add was refused): Q stays initialised - from then on events_timer_get reads the
+   clock even though no timer has ever been registered *)
+Definition timer_register_refused (af : nat) (s : st) : st :=
+  if 3 <=? af then tmr_with s (heap (s_tmr s)) else s.
+
 (* events_timer_cancel *)
 Definition timer_cancel (rid : nat) (s : st) : res st :=
   match heap_index rid (heap (s_tmr s)) with
@@ -515,7 +555,14 @@ Definition timer_get (s : st) : res (option rec * st) :=
 (* ================================================================ the client's program *)
 (* Operations of the public API as the driver issues them.  [var] names one of the driver's
    handle variables; [af] (allocation failure) is 0 for a call during which every allocation
-   succeeds, 1 for a call that fails with ENOMEM before reading the clock, 2 after. *)
+   succeeds; otherwise the call returns failure with ENOMEM and [af] says at which of its
+   allocations it was refused, i.e. what the unwinding leaves behind:
+     events_immediate_register   any af > 0: nothing (err1 frees the eventrec again)
+     events_network_register     see net_register_refused (1 nothing, 2 init() done, 3 socket list
+                                 grown, >= 4 record stored and taken out again by err1)
+     events_timer_register       odd: before the clock is read, even: after it (timerqueue_add);
+                                 >= 3: the timer queue created by this call stays (timer_register_refused)
+   The trace of the failing call itself does not depend on af beyond "clock read or not". *)
 Inductive op :=
 | OImmReg (cb prio var af : nat)
 | OImmCancel (var : nat)
@@ -575,7 +622,8 @@ Definition exec_op (o : op) (s : st) : res st :=
     | _ => Ok s
     end
   | ONetReg cb fd opn af =>
-    if negb (af =? 0) then Ok (emit (ERegFailNet fd opn ENOMEM) s) else
+    if negb (af =? 0)
+    then Ok (emit (ERegFailNet fd opn ENOMEM) (set_net s (net_register_refused af cb fd opn rid (s_net s)))) else
     let* (e, n) := net_register cb fd opn rid (s_net s) in
     match e with
     | Some err => Ok (emit (ERegFailNet fd opn err) (set_net s n))
@@ -592,12 +640,13 @@ Definition exec_op (o : op) (s : st) : res st :=
     | inr err => Ok (emit (ECancelFail fd opn err) (set_net s n))
     end
   | OTimerReg cb t var af =>
-    if af =? 1 then Ok (emit (ERegFailTimer t ENOMEM) s) else
-    if negb (af =? 0) then
-      let (_, s1) := read_clock s in Ok (emit (ERegFailTimer t ENOMEM) s1)
-    else
+    if af =? 0 then
       let* s1 := timer_register cb t rid s in
       Ok (emit (ERegister rid (KTimer t)) (cl_registered rid (Some (var, HTimer)) s1))
+    else
+      let s0 := timer_register_refused af s in
+      if Nat.odd af then Ok (emit (ERegFailTimer t ENOMEM) s0)
+      else let (_, s1) := read_clock s0 in Ok (emit (ERegFailTimer t ENOMEM) s1)
   | OTimerCancel var =>
     match get_var var (vars (s_cl s)) with
     | Some {| h_rid := r; h_kind := HTimer |} =>
